@@ -397,3 +397,5 @@ def run(res, facts, tier):
     r3_same_manager(res, facts)
     r4_global_heap(res, facts)
     r5_rollback(res, facts)
+    from . import c19_own
+    c19_own.run_rules(res, facts, tier)
